@@ -107,6 +107,8 @@ def run(ctx):
                     if r.cls != '0' and not seen and issued:
                         continue    # the process exits on the first error: this file's copy was cut short before its clone request
                     good = (len(seen) == 1) == issued and (not seen or (seen[0] == 'clone:1') == (outcome == 'cloned'))
+                    if outcome == 'failed' and seen and r.cls == '0':
+                        good = False        # the model's try_reflink returns Err for this answer (a hard error is not "unsupported"): the run cannot exit 0
                     if outcome == 'copy' and r.cls == '0' and scen.data_bytes(dict((os.path.basename(d), dd) for _, d, dd in pairs)[os.path.basename(dst)])[1]:      # (a file that is one hole needs no data call)
                         good = good and 'data' in toks
                 if not good:
@@ -133,6 +135,21 @@ def run(ctx):
                         ctx.violation(f'never-with-{driver}-{"-".join(x.strip("-") for x in extra)}.json', dict(argv=argv, plan=plan, exit=r.cls, requests=reqs[:4], stderr=r.stderr[-300:]),
                                       f'C15: --reflink=never with {" ".join(extra)} over an existing destination: {len(reqs)} clone requests, exit {r.cls} ({driver})')
                         break
+        # ---- verbose logging onto a standard output that cannot be written (a full disk behind a redirect, a closed pipe): what
+        # the clone request answered is still what decides — `auto` falls back and exits 0, whatever the logger runs into
+        for driver in ('parfile', 'parblock'):
+            for verb in (['-v'], ['-vv'], ['-vvv']):
+                d = root + '/VB'; _sh.rmtree(d, ignore_errors=True); os.makedirs(d + '/S/sub')
+                datas = {'a': os.urandom(9000), 'sub/b': os.urandom(70000), 'c': b'x'}
+                for nm, v in datas.items():
+                    open(f'{d}/S/{nm}', 'wb').write(v)
+                argv = ['-r', '--driver', driver, '--workers', '2', '--reflink=auto'] + verb + ['S', 'D']
+                r = scen.run_xcp(d, argv, timeout=60, trace=True, stdout_path='/dev/full')
+                same = all(os.path.isfile(f'{d}/D/{nm}') and open(f'{d}/D/{nm}', 'rb').read() == v for nm, v in datas.items())
+                ctx.count(f'auto_with_unwritable_stdout.{verb[0]}.exit.{r.cls}'); ctx.case(('auto-unwritable-stdout', driver, verb[0]), True)
+                if r.cls != '0' or not same:
+                    ctx.violation(f'auto-unwritable-stdout-{driver}-{verb[0].strip("-")}.json', dict(argv=argv, exit=r.cls, identical=same, stderr=r.stderr[-300:]),
+                                  f'C15: --reflink=auto {verb[0]} with standard output on a full device: exit {r.cls}, bytes identical={same} ({driver}) — cloning is merely unsupported here')
         # ---- sources on ANOTHER file system than the destination (tmpfs under /dev/shm -> ext4): the mode's contract does not
         # depend on where the files live: `always` still asks for a clone of every file and fails when it is refused (EXDEV)
         import shutil
